@@ -154,11 +154,17 @@ fn seed_from_env() -> u64 {
 
 fn components() -> serde_json::Value {
     serde_json::json!({
-        "real": ["garble_lang (scan, parse, check, compile, circuit builder, register allocator, convert, eval) built from /repo's working tree",
-                 "std::collections::HashMap/RandomState (SipHash keyed by the seam)", "std::fs::File, std::io::BufReader/Write formatting"],
-        "simulated": ["entropy source (getrandom)", "file system: open/read/write/close on /SIMDISK paths (in-memory disk, fault plans)",
-                      "process identity: one OS thread with its own hash keys = one simulated process (validated against fresh OS processes)"],
-        "stubs": ["fd numbers are placeholders on /dev/null", "no fsync/power-loss reordering below the page cache (the exporter never syncs)"]
+        "real": ["garble_lang (scan, parse, check, compile, circuit builder, register allocator, convert, eval, serde impls) built from /repo's working tree with the verif_hooks feature (probes and yield points only)",
+                 "std::collections::HashMap/RandomState (SipHash keyed by the seam)", "std::fs::File, std::io::BufReader/BufWriter, std::env, std::time, std::thread (they reach the OS only through the interposed libc symbols)",
+                 "serde_json (de)serialisation of circuits", "OS processes for process parties / child receivers (real fork+exec; everything they observe comes from the world file they are handed)"],
+        "simulated": ["entropy source (getrandom): hash keys per party",
+                      "file system: open/open64, read, write, close, rename, unlink, statx/fstat/stat/lstat, lseek, fsync/fdatasync, ftruncate on /SIMDISK paths (in-memory disk with modification times, fault plans, stat-size lies, capacity)",
+                      "clocks (clock_gettime): party time and clock speed derived from the party's keys",
+                      "environment (getenv): discovery of the variables the library asks for, flipped per party",
+                      "CPU count (sched_getaffinity), thread creation (pthread_create refusal), allocator (per-process memory limit), stdout/stderr (closed or read-only descriptors)",
+                      "thread interleaving: baton scheduler over real threads at library yield points and at simulated-file syscalls",
+                      "process identity: one OS thread with its own hash keys / clock / environment = one simulated process (validated against fresh OS processes in the fidelity batch), plus real child processes for process-wide state"],
+        "stubs": ["fd numbers are placeholders on /dev/null", "no fsync/power-loss reordering below the page cache (the exporter never syncs)", "no network: parties exchange circuits as byte strings handed over by the harness (channel faults are applied to those bytes)"]
     })
 }
 
@@ -166,10 +172,10 @@ fn c06_def(plan: &c06::Plan) -> driver::PropertyDef {
     driver::PropertyDef {
         id: "C06",
         level: "exploration",
-        rule: "cases = corpus programs (tests/docs/examples of the repository) + generated well-typed programs biased to order-sensitive shapes + ill-typed programs; each case runs P simulated parties (distinct SipHash keys, key-counter drift, repeated compilations, permuted constant maps, 4 option combinations, up to 2 functions). evaluations = compilations executed. distinct_nontrivial = distinct (source, function, options) triples that compiled to a circuit AND during whose compilation at least one hash-map iteration site (probe from the verif_hooks feature) was walked with >= 2 keys in >= 2 distinct raw orders across parties, i.e. triples on which hash order really varied and circuits were compared",
+        rule: "cases = corpus programs (tests/docs/examples of the repository) + generated well-typed programs biased to order-sensitive shapes + ill-typed programs (1-4 errors) + big / huge programs (up to millions of gates) + deeply nested programs (4..4000 levels) + concurrent callers (2..40 threads under a baton schedule); each case runs P simulated parties (distinct SipHash keys, key-counter drift, clocks of different speed, repeated compilations, permuted constant maps, 4 option combinations, up to 2 functions) of which some are OS processes (cold, warm, veteran, memory-limited, environment-flipped, 1 or 2 usable CPUs, and in the thorough tier other cargo profiles of the same sources). evaluations = compilations executed. distinct_nontrivial = distinct (source, function, options) triples that compiled to a circuit AND during whose compilation at least one hash-map iteration site (probe from the verif_hooks feature) was walked with >= 2 keys in >= 2 distinct raw orders across parties, i.e. triples on which hash order really varied and circuits were compared",
         assumptions: vec![
             "a thread with seam-provided RandomState keys behaves like a fresh process with those keys (checked against fresh OS processes in the fidelity batch)".into(),
-            "HashMap/HashSet with RandomState is the only nondeterminism source in the library (no threads, clocks, statics, pointers hashed; re-checked by grep guard)".into(),
+            "nondeterminism reaches the library only through the seams listed under components.simulated (hash keys, clocks, environment, CPU count, allocator, thread scheduling at yield points, process history, build profile); a source outside them (e.g. a raw syscall or inline rdtsc) would not be varied".into(),
             "seeded search: P random key pairs per program bound the miss probability only for order-sensitive sites the workload reaches".into(),
         ],
         components: components(),
@@ -184,12 +190,12 @@ fn c11_def(plan: &c11::CasePlan) -> driver::PropertyDef {
     driver::PropertyDef {
         id: "C11",
         level: "fault_enumeration",
-        rule: "families: sweep = complete single-fault enumeration per small circuit (every write index x {short, EINTR, ENOSPC, sticky EIO}, every disk-full byte budget, every open errno, every read index x {short, EINTR, EIO}, chunked reads (1/7/64 bytes) with EIO at every chunk position, interrupted opens, every truncation offset, every single-bit flip, digit/space/newline substitution at every offset, every header token x replacement token); large = exports of several MiB (block-size dependent behaviour) fault-free or under transparent faults; history = the export path has a history (old contents / earlier larger exports at the same path) before the export under test; seeded = PRNG-drawn multi-fault plans on both sides; corrupt = exporter crash points and stored-data corruption between export and import; text = arbitrary/mutated text files to the importer; s5 = two exporters on one path under a PRNG baton schedule. evaluations = exports + imports + circuit evaluations executed. distinct_nontrivial = distinct worlds (hash of circuit source, fault plans, corruptions, schedule) in which at least one injected fault actually fired, at least one stored byte actually changed, or the export path had a history",
+        rule: "families: sweep = complete single-fault enumeration per small circuit (every write index x {short, EINTR, ENOSPC, sticky EIO}, every disk-full byte budget, every open errno, every read index x {short, EINTR, EIO}, chunked reads (1/7/64 bytes) with EIO at every chunk position, interrupted opens, every truncation offset, every single-bit flip, digit/space/newline substitution at every offset, every header token x replacement token); large = exports of several MiB (block-size dependent behaviour) fault-free or under transparent faults; history = the export path has a history (old contents / earlier larger exports at the same path, earlier imports of the same path, replacement of the file by another process with kept or renewed modification time) before the export / import under test; seeded = PRNG-drawn multi-fault plans on both sides; corrupt = exporter crash points and stored-data corruption between export and import; text = arbitrary/mutated text files to the importer; s5 = two exporters on one path under a PRNG baton schedule. evaluations = exports + imports + circuit evaluations executed. distinct_nontrivial = distinct worlds (hash of circuit source, fault plans, corruptions, schedule) in which at least one injected fault actually fired, at least one stored byte actually changed, or the export path had a history",
         assumptions: vec![
             "the kernel below the seam is healthy; reordering below the page cache / fsync semantics are not modelled (the exporter never syncs and the property promises no durability)".into(),
             "std::fs::File reaches the OS only through open64/open, write, read, close (start-up liveness test fails closed otherwise)".into(),
             "function equality is checked on all inputs for circuits with <= 10 input bits and on all-zeros, all-ones and 48 PRNG vectors otherwise".into(),
-            "allocation failure is not injected; workers run under RLIMIT_AS = 8 GiB so an absurd allocation is a deterministic abort attributed to its world".into(),
+            "allocation failure is not injected for C11; workers run under RLIMIT_AS = 8 GiB so an absurd allocation is a deterministic abort attributed to its world".into(),
         ],
         components: components(),
         crash_is_violation: true,
@@ -495,6 +501,11 @@ fn main() {
             }
         }
         Some("replay") => std::process::exit(replay(&args[2])),
+        Some("c11-child") => {
+            install_panic_hook();
+            supervise::limit_address_space(8 << 30);
+            std::process::exit(c11::child_main())
+        }
         Some("c16-child") => {
             install_panic_hook();
             std::process::exit(c16::child_main())
